@@ -407,6 +407,14 @@ func c12CLI(e *Env) {
 			edited := append([]string{}, stmts...)
 			edited[1] = "INSERT INTO journal VALUES (0, 99);"
 			write(edited)
+			// the dry run takes the same decision, and touches nothing
+			dry := runAtlas(e, dir, nil, append(append([]string{}, args...), "--dry-run")...)
+			dd := dumpDB(filepath.Join(dir, "db.sqlite"))
+			if dry.Code == 0 || !strings.Contains(dry.Stderr+dry.Stdout, "changed") {
+				e.Res.Violate("failing-input", "changed-prefix-not-refused-by-dry-run", fmt.Sprintf("CLI: an applied statement was edited but `migrate apply --dry-run` exits %d and prints: %s", dry.Code, trunc(dry.Stderr+dry.Stdout, 300)), "Props.C12 CLI", rep)
+			} else if d1.canon(true) != dd.canon(true) {
+				e.Res.Violate("failing-input", "refused-but-history-touched", fmt.Sprintf("CLI: the refused dry run changed the database:\n%s\nvs\n%s", trunc(d1.canon(true), 400), trunc(dd.canon(true), 400)), "Props.C12 CLI", rep)
+			}
 			o2 := runAtlas(e, dir, nil, args...)
 			d2 := dumpDB(filepath.Join(dir, "db.sqlite"))
 			if o2.Code == 0 || !strings.Contains(o2.Stderr+o2.Stdout, "changed") {
@@ -419,6 +427,17 @@ func c12CLI(e *Env) {
 		}
 		fixed := append(append([]string{}, stmts[:v.k]...), v.newTail...)
 		write(fixed)
+		// the dry run resumes at the same statement: it lists the new tail, not the applied part, and touches nothing
+		dry := runAtlas(e, dir, nil, append(append([]string{}, args...), "--dry-run")...)
+		dd := dumpDB(filepath.Join(dir, "db.sqlite"))
+		switch {
+		case dry.Code != 0:
+			e.Res.Violate("failing-input", "tail-edit-not-resumed", fmt.Sprintf("CLI %s: only the tail was edited but `migrate apply --dry-run` fails: %s", v.name, trunc(dry.Stderr+dry.Stdout, 300)), "Props.C12 CLI", rep)
+		case d1.canon(true) != dd.canon(true):
+			e.Res.Violate("failing-input", "dry-run-touched-database", fmt.Sprintf("CLI %s: the dry run changed the database:\n%s\nvs\n%s", v.name, trunc(d1.canon(true), 400), trunc(dd.canon(true), 400)), "Props.C12 CLI", rep)
+		case strings.Contains(dry.Stdout, "CREATE TABLE journal") || !strings.Contains(dry.Stdout, v.newTail[len(v.newTail)-1]):
+			e.Res.Violate("failing-input", "dry-run-resumes-elsewhere", fmt.Sprintf("CLI %s: %d statements are applied; the dry run should list exactly the new tail %v, it prints: %s", v.name, v.k, v.newTail, trunc(dry.Stdout, 500)), "Props.C12.tail_edit_resumes (CLI)", rep)
+		}
 		o2 := runAtlas(e, dir, nil, args...)
 		d2 := dumpDB(filepath.Join(dir, "db.sqlite"))
 		switch {
